@@ -252,6 +252,12 @@ impl Engine for C15 {
                 let steps = vec![
                     Step { op: link(0, 0), fl },
                     Step { op: Op::RemoveTarget { target: 0 }, fl: Fl::Sync },
+                    // read-only calls on an entry whose link dangles: they leave it as it is
+                    Step { op: Op::Exists { addr: AddrRef { algo: crate::blob::Algo::Sha256, blob: 0 } }, fl },
+                    Step { op: Op::ReadHash { addr: AddrRef { algo: crate::blob::Algo::Sha256, blob: 0 } }, fl },
+                    Step { op: Op::Meta { key: 0 }, fl },
+                    Step { op: Op::Read { key: 0 }, fl },
+                    Step { op: Op::List, fl: Fl::Sync },
                     Step { op: link(1, 1), fl },
                     Step { op: Op::Read { key: 0 }, fl },
                     Step { op: Op::Read { key: 1 }, fl },
@@ -282,6 +288,8 @@ impl Engine for C15 {
                 steps.push(Step { op: Op::Remove { key: k }, fl: other });
                 steps.push(Step { op: Op::Write(WriteSpec::simple(Some(k), 1 - k)), fl: other });
                 steps.push(Step { op: Op::Extract { kind: XKind::Copy, checked: true, by: By::Key(k), dest: Dest::Absent }, fl });
+                steps.push(Step { op: Op::Extract { kind: XKind::Copy, checked: i % 2 == 0, by: By::Key(k), dest: Dest::Directory }, fl });
+                steps.push(Step { op: Op::Extract { kind: XKind::HardLink, checked: true, by: By::Key(k), dest: Dest::Directory }, fl: other });
             }
             steps.push(Step { op: Op::RemoveOpts { key: 0, fully: true }, fl: if i % 2 == 0 { Fl::Sync } else { Fl::Async } });
             out.push(Program { keys, blobs, steps });
